@@ -296,13 +296,16 @@ class SimpleDictDocument(DictDocument):
                 idx = nidx
                 ctype_info = ncls.get_flat_type_info(ncls)
 
+            # before the first value of a member, the instance holds the
+            # declared default, which is shared between requests.
+            is_first = frequencies[cfreq_key][member.path[-1]] == 0
             frequencies[cfreq_key][member.path[-1]] += len(value)
 
             member_attrs = self.get_cls_attrs(member.type)
             if member_attrs.max_occurs > 1:
                 _v = getattr(cinst, member.path[-1], None)
                 is_set = True
-                if _v is None:
+                if _v is None or is_first:
                     is_set = cinst._safe_set(member.path[-1], value,
                                                       member.type, member_attrs)
                 else:
